@@ -58,7 +58,7 @@ def check(run, prog, tier):
 _LIST_MUT = ("append", "pop", "insert", "remove", "clear", "extend", "sort", "reverse")
 
 
-def list_ops(stmts, attrs):
+def list_ops(stmts, attrs, recv=("self",)):
     """Order-changing operations on self.<attr> (attr in attrs) directly in the statement list `stmts`, in source order:
     [(attr, (op, position text))]; nested blocks are returned as ('block', [...]) entries so that lockstep is demanded
     per block (both lists changed under the same condition)."""
@@ -67,7 +67,7 @@ def list_ops(stmts, attrs):
         found = []
         if isinstance(st, ast.Expr) and isinstance(st.value, ast.Call) and isinstance(st.value.func, ast.Attribute) \
                 and st.value.func.attr in _LIST_MUT and isinstance(st.value.func.value, ast.Attribute) \
-                and norm(st.value.func.value.value) == "self" and st.value.func.value.attr in attrs:
+                and norm(st.value.func.value.value) in recv and st.value.func.value.attr in attrs:
             c = st.value
             op = c.func.attr
             pos = ""
@@ -78,7 +78,7 @@ def list_ops(stmts, attrs):
             found.append((c.func.value.attr, (op, pos), st))
         elif isinstance(st, ast.Delete):
             for t_ in st.targets:
-                if isinstance(t_, ast.Subscript) and isinstance(t_.value, ast.Attribute) and norm(t_.value.value) == "self" \
+                if isinstance(t_, ast.Subscript) and isinstance(t_.value, ast.Attribute) and norm(t_.value.value) in recv \
                         and t_.value.attr in attrs:
                     found.append((t_.value.attr, ("del", norm(t_.slice)), st))
         elif isinstance(st, (ast.Assign, ast.AugAssign)):
@@ -88,7 +88,7 @@ def list_ops(stmts, attrs):
                 sub = None
                 if isinstance(b_, ast.Subscript):
                     sub, b_ = b_, b_.value
-                if isinstance(b_, ast.Attribute) and norm(b_.value) == "self" and b_.attr in attrs:
+                if isinstance(b_, ast.Attribute) and norm(b_.value) in recv and b_.attr in attrs:
                     if sub is None:
                         found.append((b_.attr, ("rebind", norm(st.value) if isinstance(st.value, (ast.List, ast.Constant)) else "?"), st))
                     elif isinstance(sub.slice, ast.Slice):
@@ -99,7 +99,7 @@ def list_ops(stmts, attrs):
         if not found:
             for c in ast.walk(st) if not isinstance(st, (ast.If, ast.For, ast.While, ast.With, ast.Try)) else []:
                 if isinstance(c, ast.Call) and isinstance(c.func, ast.Attribute) and c.func.attr in _LIST_MUT \
-                        and isinstance(c.func.value, ast.Attribute) and norm(c.func.value.value) == "self" and c.func.value.attr in attrs:
+                        and isinstance(c.func.value, ast.Attribute) and norm(c.func.value.value) in recv and c.func.value.attr in attrs:
                     pos = (norm(c.args[0]) if c.args else "-1") if c.func.attr in ("pop", "insert") else ""
                     found.append((c.func.value.attr, (c.func.attr, pos), st))
         out.extend(found)
@@ -109,7 +109,7 @@ def list_ops(stmts, attrs):
                 blk = []
                 for h in sub:
                     blk.extend(h.body if isinstance(h, ast.ExceptHandler) else [h])
-                out.append(("block", list_ops(blk, attrs), st))
+                out.append(("block", list_ops(blk, attrs, recv), st))
     return out
 
 
